@@ -241,7 +241,7 @@ def run_mutant(job):
 
 
 def main(argv):
-    jobs, only, limit, out, jpc, recheck = 8, None, None, os.path.join(HERE, "selftest_sweep.json"), 2, None
+    jobs, only, limit, out, jpc, recheck = 8, None, None, os.path.join(HERE, "sweep_results", "selftest_sweep.json"), 2, None
     i = 0
     while i < len(argv):
         if argv[i] == "--jobs":
